@@ -32,7 +32,31 @@ fn scan_current_from<R: std::io::Read + std::io::Seek>(src: R, backward: bool, l
                 return Err("runaway".to_string());
             }
         }
-        Ok(entries_hash(items.iter().map(|(k, v)| (&k[..], &v[..]))))
+        let first = entries_hash(items.iter().map(|(k, v)| (&k[..], &v[..])));
+        // the same cursor reused for two more complete scans (back to the start with an absolute move): a scan
+        // is a function of the file, not of what the cursor did before
+        if items.len() <= 400 {
+            for round in 0..2 {
+                let mut again: Vec<(Vec<u8>, Vec<u8>)> = Vec::new();
+                let mut r = if backward { c.move_on_last() } else { c.move_on_first() };
+                loop {
+                    match r.map_err(|e| err_class(&e))? {
+                        Some((k, v)) => again.push((k.to_vec(), v.to_vec())),
+                        None => break,
+                    }
+                    if again.len() > limit {
+                        return Err("runaway".to_string());
+                    }
+                    r = if backward { c.move_on_prev() } else { c.move_on_next() };
+                }
+                if entries_hash(again.iter().map(|(k, v)| (&k[..], &v[..]))) != first {
+                    println!("DIRECT fail scan number {} on the same cursor ({}) yields {} entries, other than the {} entries of its first scan",
+                             round + 2, if backward { "backward" } else { "forward" }, again.len(), items.len());
+                    break;
+                }
+            }
+        }
+        Ok(first)
     });
     match r {
         Ok(Ok((n, h))) => format!("{} {:016x}", n, h),
